@@ -2,7 +2,7 @@
    md5 is universally quantified everywhere (a Section variable in Model.v). *)
 From Coq Require Import String List Bool ZArith Permutation.
 Import ListNotations.
-Require Import V.Lib.PyStr V.Lib.JTree V.Memo.Model V.Memo.Proofs V.Memo.Entries V.Memo.Chain V.Memo.Regex V.Memo.Order V.Memo.Examples.
+Require Import V.Lib.PyStr V.Lib.JTree V.Memo.Model V.Memo.Proofs V.Memo.Entries V.Memo.Chain V.Memo.Regex V.Memo.Order V.Memo.Examples V.Memo.History.
 Open Scope string_scope.
 
 (* The closed form [serialise] is the coded traversal applied to the info dictionary. *)
@@ -191,6 +191,31 @@ Theorem C16_order_independent : forall subs subs' ws,
 Proof. exact order_independent. Qed.
 Print Assumptions C16_order_independent.
 
+(* Hashes asked for REPEATEDLY in one process while the referenced files change ([session]: writes to paths and asks on
+   objects that compute: reset, never asked, or newly built on the same instance directory).  The answer to an ask is
+   the infos of the state of the files at the time of the ask; two histories -- on the same instance or on another one
+   (other location, names, stage indices, modification times) -- that end in the same hash-relevant state get the same
+   answer: neither what a path contained earlier, nor when it was written, nor what was asked before matters. *)
+Theorem C16_history : forall md5 fuzzy sel g ops g' ops',
+  map core (final g ops) = map core (final g' ops') ->
+  last (session md5 g (ops ++ [OAsk fuzzy sel])) [] = last (session md5 g' (ops' ++ [OAsk fuzzy sel])) [] /\
+  last (session md5 g (ops ++ [OAsk fuzzy sel])) [] = pick (infos md5 fuzzy (final g' ops')) sel.
+Proof. exact history_independent. Qed.
+Print Assumptions C16_history.
+
+(* ... every ask of a session sees exactly the state reached by the operations before it ... *)
+Theorem C16_history_each : forall md5 g pre fuzzy sel post,
+  nth (length (session md5 g pre)) (session md5 g (pre ++ OAsk fuzzy sel :: post)) [] = pick (infos md5 fuzzy (final g pre)) sel.
+Proof. exact session_nth. Qed.
+Print Assumptions C16_history_each.
+
+(* ... and writing again, at whatever time, what a path already holds changes nothing the hashes depend on. *)
+Theorem C16_rewrite_same : forall loc mt st g,
+  (forall c r, In c g -> In r (c_refs c) -> d_location r = loc -> d_state r = st) ->
+  map core (write loc mt st g) = map core g.
+Proof. exact rewrite_same. Qed.
+Print Assumptions C16_rewrite_same.
+
 (* non-vacuity: a producer and a consumer of its file out.txt and of an input; md5 s = "<s>" *)
 Definition ex_md5 (s : string) : string := "<" ++ s ++ ">".
 Definition ex_prod : comp := {| c_name := "gen"; c_stage := 0; c_location := "/tmp/i1"; c_exe := "echo";
@@ -267,3 +292,29 @@ Proof.
   repeat split; try (vm_compute; reflexivity).
   vm_compute. repeat (constructor; [cbn; intuition discriminate|]). constructor.
 Qed.
+
+(* non-vacuity of C16_history: the consumer is asked, the producer's out.txt is overwritten in place with other contents of
+   the same size at the same time (17), the consumer is asked again: the strong answer changes, the fuzzy one does not, and
+   the second strong answer is the one of an instance elsewhere, with other names, that has only ever held the new contents *)
+Definition ex_elsewhere : list comp :=
+  [ {| c_name := "alpha"; c_stage := 3; c_location := "/other"; c_exe := "echo"; c_args := [TLit "-n hello"]; c_refs := [];
+       c_backend := BKube "img:1" |};
+    {| c_name := "beta"; c_stage := 4; c_location := "/other"; c_exe := "cat"; c_args := [TRef 0; TLit " "; TRef 1];
+       c_refs := [ {| d_key := "stage3.alpha/out.txt:ref"; d_text := "stage3.alpha/out.txt:ref"; d_location := "/other/stages/stage3/alpha/out.txt";
+                      d_mtime := 99; d_prod := Some 0%nat; d_fileref := "out.txt"; d_method := "ref"; d_state := FFile "TUO" |};
+                   {| d_key := "input/in.txt:ref"; d_text := "input/in.txt:ref"; d_location := "/other/input/in.txt";
+                      d_mtime := 98; d_prod := None; d_fileref := ""; d_method := "ref"; d_state := FFile "abc" |} ];
+       c_backend := BLocal |} ].
+Example C16_nonvacuous_history :
+  let g := [ex_prod; ex_cons "OUT"] in
+  let ops := [OAsk false [1%nat]; OAsk true [1%nat]; OWrite "/tmp/i1/stages/stage0/gen/out.txt" 17 (FFile "TUO")] in
+  map core (final g ops) = map core (final ex_elsewhere []) /\
+  map core (final g ops) <> map core g /\
+  session ex_md5 g (ops ++ [OAsk false [1%nat]]) =
+    [ [Some {| i_files := ["<OUT>:ref"; "<abc>:ref"]; i_exe := "cat"; i_args := "file:<OUT>:ref file:<abc>:ref"; i_image := None |}];
+      pick (infos ex_md5 true g) [1%nat];
+      [Some {| i_files := ["<TUO>:ref"; "<abc>:ref"]; i_exe := "cat"; i_args := "file:<TUO>:ref file:<abc>:ref"; i_image := None |}] ] /\
+  last (session ex_md5 g (ops ++ [OAsk false [1%nat]])) [] = pick (infos ex_md5 false ex_elsewhere) [1%nat] /\
+  last (session ex_md5 g (ops ++ [OAsk true [1%nat]])) [] = pick (infos ex_md5 true g) [1%nat] /\
+  map core (write "/tmp/i1/stages/stage0/gen/out.txt" 99 (FFile "OUT") g) = map core g.
+Proof. vm_compute. repeat split; try reflexivity; congruence. Qed.
